@@ -505,7 +505,7 @@ impl Monitor for C07 {
                                 consumed: d.len(),
                             }),
                             &label,
-                            true,
+                            false,
                             ctx,
                             false,
                         );
@@ -521,7 +521,7 @@ impl Monitor for C07 {
             let mut r = Rng::derive(self.seed, 0x0703, k, 0);
             match streams::generator_stream(&mut r, max_plain) {
                 Some(s) => {
-                    let cross = r.chance(1, 10);
+                    let cross = false;
                     Self::judge(
                         &s.bytes,
                         Some(Truth {
@@ -559,7 +559,7 @@ impl Monitor for C07 {
         if k < self.n_comp {
             let mut r = Rng::derive(self.seed, 0x0704, k, 0);
             let s = streams::compressor_stream(&mut r, max_plain, None);
-            let cross = r.chance(1, 10);
+            let cross = false;
             Self::judge(
                 &s.bytes,
                 Some(Truth {
